@@ -83,6 +83,25 @@ def run_translator(ctx):
     return True
 
 
+def lean_closure(root):
+    """source files of the modules imported (transitively) from module `root` inside lean/"""
+    seen, todo, out = set(), [root], []
+    while todo:
+        m = todo.pop()
+        if m in seen:
+            continue
+        seen.add(m)
+        path = os.path.join(LEAN, *m.split('.')) + '.lean'
+        if not os.path.exists(path):
+            continue
+        out.append(path)
+        for ln in open(path):
+            mm = re.match(r'\s*import\s+(Theo[\w.]*|Driver[\w.]*)', ln)
+            if mm:
+                todo.append(mm.group(1))
+    return out
+
+
 def lean_obligations(ctx, modules, theorems):
     """Build the Lean library (generated tables + model + proofs), audit axioms of the
     property theorems, grep for forbidden constructs.  `theorems`: fully qualified names."""
@@ -93,18 +112,16 @@ def lean_obligations(ctx, modules, theorems):
         ctx.stage_broken('lake build', '\n'.join(errs) or out[-800:])
         # the driver of the last good build may still exist; correspondence then uses it
         return False
-    # forbidden constructs anywhere in the library sources (comments stripped)
+    # forbidden constructs anywhere in the import closure of the library root (comments stripped)
     bad = []
-    for d, _, fs in os.walk(os.path.join(LEAN, 'Theo')):
-        for f in fs:
-            if not f.endswith('.lean'):
-                continue
-            txt = open(os.path.join(d, f)).read()
-            txt = re.sub(r'/-.*?-/', '', txt, flags=re.S)
-            for ln in txt.splitlines():
-                ln = re.sub(r'--.*$', '', ln)
-                if FORBIDDEN.search(ln):
-                    bad.append('%s: %s' % (f, ln.strip()[:120]))
+    for path in lean_closure('Theo'):
+        f = os.path.basename(path)
+        txt = open(path).read()
+        txt = re.sub(r'/-.*?-/', '', txt, flags=re.S)
+        for ln in txt.splitlines():
+            ln = re.sub(r'--.*$', '', ln)
+            if FORBIDDEN.search(ln):
+                bad.append('%s: %s' % (f, ln.strip()[:120]))
     if bad:
         ctx.stage_broken('forbidden construct in Lean sources', '\n'.join(bad[:10]))
         return False
